@@ -157,6 +157,9 @@ func runC18(c *Ctx) {
 	c18NextHopPort(c)
 	c18Pattern(c)
 	c18Table(c)
+	// the host looked up is the To host as received (rule shared with C01/C14)
+	rulePureCapture(c, "pure-capture")
+	c18Wiring(c, "next-hop-port")
 }
 
 // c18Table: a configured route is filed under exactly the destination it was configured with: AddRouteItem builds the
@@ -559,4 +562,51 @@ func c18Pattern(c *Ctx) {
 	}
 	c.check(n >= 1, rule, "regexp-uses", "-", "regular-expression uses found", "no regular-expression use in the static-route code: wildcard patterns are not supported")
 	c.floor(rule, 3)
+}
+
+// c18Wiring: the static routes are handed to the table as configured: createPreConfigRoute passes the entry's protocol,
+// each of its destinations and its next hop to AddRouteItem without rewriting them (a protocol "normalised" to udp
+// turns a tls next hop without port into port 5060 instead of 5061).
+func c18Wiring(c *Ctx, rule string) {
+	w := c.w
+	f := c.fn(rule, "createPreConfigRoute")
+	if f == nil {
+		return
+	}
+	n := 0
+	good := true
+	why := ""
+	for _, cs := range w.callsIn(f, "(*PreConfigRoute).AddRouteItem") {
+		n++
+		fieldOfElem := func(v ssa.Value, want string) bool {
+			v = strip(v)
+			if fl, ok := v.(*ssa.Field); ok {
+				return fieldName(fl.X.Type(), fl.Field) == want
+			}
+			if a, ok := isDeref(v); ok {
+				if fa, ok := a.(*ssa.FieldAddr); ok {
+					return fieldName(fa.X.Type(), fa.Field) == want
+				}
+			}
+			return false
+		}
+		if !fieldOfElem(callArg(cs.In, 0), "Protocol") {
+			good, why = false, "the protocol argument is "+w.termKey(callArg(cs.In, 0))
+		}
+		if !fieldOfElem(callArg(cs.In, 2), "NextHop") {
+			good, why = false, "the next-hop argument is "+w.termKey(callArg(cs.In, 2))
+		}
+		isDest := false
+		for _, rl := range rangeLoops(f) {
+			if rl.isElem(callArg(cs.In, 1)) {
+				if fieldOfElem(rl.Over, "Dests") {
+					isDest = true
+				}
+			}
+		}
+		if !isDest {
+			good, why = false, "the destination argument is "+w.termKey(callArg(cs.In, 1))
+		}
+	}
+	c.check(good && n == 1, rule, "createPreConfigRoute/as-configured", w.pos(f.Pos()), "AddRouteItem(entry.Protocol, each entry.Dests element, entry.NextHop)", "createPreConfigRoute does not pass the configured protocol, destination and next hop to AddRouteItem unmodified ("+why+")")
 }
